@@ -2016,10 +2016,17 @@ int EGLPNUM_TYPENAME_ILLlib_chgsense (
 		case 'R':									/* Range constraint, we will set its upper bound
 																 once we call EGLPNUM_TYPENAME_QSchange_range, by default it 
 																 will be zero, i.e. an equation. */
+			if (qslp->sense[rowlist[i]] == 'R')
+				break;									/* already a range row: keep its range */
 			qslp->sense[rowlist[i]] = 'R';
 			EGLPNUM_TYPENAME_EGlpNumZero(qslp->lower[j]);
 			EGLPNUM_TYPENAME_EGlpNumZero(qslp->upper[j]);
+			/* same orientation as a range row created by addrow:
+			 * rhs <= a.x <= rhs + range, logical coefficient -1 */
 			EGLPNUM_TYPENAME_EGlpNumOne(A->matval[k]);
+			EGLPNUM_TYPENAME_EGlpNumSign(A->matval[k]);
+			if (qslp->rangeval)
+				EGLPNUM_TYPENAME_EGlpNumZero(qslp->rangeval[rowlist[i]]);
 			break;
 		case 'E':									/* Artificial */
 			qslp->sense[rowlist[i]] = 'E';
@@ -3367,6 +3374,8 @@ int EGLPNUM_TYPENAME_ILLlib_chgrange (
 	}
 	
 	EGLPNUM_TYPENAME_EGlpNumCopy(qslp->rangeval[indx], coef);
+	/* the range is the upper bound of the row's logical variable */
+	EGLPNUM_TYPENAME_EGlpNumCopy(qslp->upper[qslp->rowmap[indx]], coef);
 
 CLEANUP:
 
